@@ -145,13 +145,40 @@ ChainExpect(c) == [t |-> "located", code |-> (IF c.ty = "class" THEN 550 ELSE 55
 RetCells == [fam : {"rettype"}, what : {"array", "externbool"}, form : {"body", "head"}, order : {"single", "lib-first", "main-first", "main-uses"}]
 RetExpect(c) == [t |-> "located", code |-> (IF c.what = "array" THEN 351 ELSE 358)]
 
-Cells == BuiltinCells \cup DepthCells \cup SizeCells \cup SymCells \cup NameCells \cup ChainCells \cup RetCells
+(***************************************************************************)
+(* a string literal written in PARTS (closed and opened again, errors.md   *)
+(* E160 / E161; examples/strings.pn) where a number is expected: the       *)
+(* offending text is the whole literal, from the first quote of the first  *)
+(* part to the last quote of the last one; the diagnostic spans it.        *)
+(***************************************************************************)
+JoinCells == [fam : {"joinstr"}, parts : 2..3, layout : {"line", "lines"}, ctx : {"arg", "ret", "init"}]
+JoinExpect(c) == [t |-> "located", code |-> (CASE c.ctx = "arg" -> 512 [] c.ctx = "ret" -> 333 [] OTHER -> 504)]
+
+(***************************************************************************)
+(* the target: `--wasm` makes usize and pointers 32 bits wide.  Constructs *)
+(* whose code depends on the width of the machine word -- casts between    *)
+(* every pair of integer types with a run-time operand, literals of the    *)
+(* wide types in every spelling and every constant position, `|:T|` of     *)
+(* types that hold pointers -- for both targets: all of it is documented   *)
+(* language, so every cell compiles (and C03 sends the IR of every         *)
+(* successful run through llvm-as and the verifier).                       *)
+(***************************************************************************)
+WInts == {"u8", "u32", "i32", "u64", "i64", "usize"}
+WasmCells == { c \in [fam : {"target"}, what : {"cast"}, a : WInts, b : WInts, wasm : BOOLEAN] : c.a # c.b }
+             \cup [fam : {"target"}, what : {"lit"}, a : {"u64", "i64", "usize", "u32"}, b : {"dec", "hex", "bin"},
+                    place : {"var", "member", "elem", "nested", "const", "constmember"}, wasm : BOOLEAN]
+             \cup [fam : {"target"}, what : {"size"}, a : {"ptr", "ptrarray", "ptrstruct", "usize", "usizearray", "mixed"},
+                    b : {"ret", "const"}, wasm : BOOLEAN]
+
+Cells == BuiltinCells \cup DepthCells \cup SizeCells \cup SymCells \cup NameCells \cup ChainCells \cup RetCells \cup JoinCells \cup WasmCells
 Expect(x) == CASE x.fam = "builtin" -> BuiltinExpect(x)
                [] x.fam = "depth" -> DepthExpect(x)
                [] x.fam = "size" -> SizeExpect(x)
                [] x.fam = "names" -> NameExpect(x)
                [] x.fam = "chain" -> ChainExpect(x)
                [] x.fam = "rettype" -> RetExpect(x)
+               [] x.fam = "joinstr" -> JoinExpect(x)
+               [] x.fam = "target" -> [t |-> "valid"]
                [] OTHER -> SymExpect(x)
 
 VARIABLE x
